@@ -667,7 +667,8 @@ impl Harness {
                     });
                     write_replay(&self.prop, &check, &body)
                 });
-                println!("{} {}: {}", self.prop, check, failure.message);
+                let shown: String = failure.message.chars().take(1800).collect();
+                println!("{} {}: {}", self.prop, check, shown);
                 println!("VIOLATION property={} replay={}", self.prop, path.display());
                 std::process::exit(1);
             }
